@@ -8,6 +8,7 @@
  *                              kind in {getrandom, write, open, mkdir} fails. errno is one of
  *                              eintr, eio, enospc, eacces, eperm, emfile, short (short count)
  *   DETSYS_CLOCK_OFFSET=<i64>  seconds added to clock_gettime(CLOCK_REALTIME)/gettimeofday/time
+ *   DETSYS_CLOCK_ABS=<i64>     the wall clock reads exactly this many seconds since the epoch (frozen)
  *   DETSYS_REPORT=<path>       at exit, write one line of call counts and fired faults
  *
  * In-process control (looked up with dlsym by the simulator):
@@ -44,6 +45,8 @@ static int inited;
 static int have_seed;
 static uint64_t rstate;
 static long long clock_off;
+static long long clock_abs;
+static int have_abs;
 static const char *report_path;
 
 /* in-process arming */
@@ -82,6 +85,8 @@ static void init(void) {
   if (s && *s) { have_seed = 1; rstate = strtoull(s, NULL, 10); }
   s = getenv("DETSYS_CLOCK_OFFSET");
   if (s && *s) clock_off = strtoll(s, NULL, 10);
+  s = getenv("DETSYS_CLOCK_ABS");
+  if (s && *s) { clock_abs = strtoll(s, NULL, 10); have_abs = 1; }
   report_path = getenv("DETSYS_REPORT");
   s = getenv("DETSYS_PLAN");
   if (s && *s) {
@@ -187,13 +192,19 @@ int mkdir(const char *path, mode_t mode) {
 int clock_gettime(clockid_t id, struct timespec *ts) {
   init();
   int r = real_clock_gettime(id, ts);
-  if (r == 0 && id == CLOCK_REALTIME) ts->tv_sec += clock_off;
+  if (r == 0 && id == CLOCK_REALTIME) {
+    if (have_abs) { ts->tv_sec = clock_abs; ts->tv_nsec = 0; }
+    else ts->tv_sec += clock_off;
+  }
   return r;
 }
 int gettimeofday(struct timeval *tv, void *tz) {
   init();
   int r = real_gettimeofday(tv, tz);
-  if (r == 0) tv->tv_sec += clock_off;
+  if (r == 0) {
+    if (have_abs) { tv->tv_sec = clock_abs; tv->tv_usec = 0; }
+    else tv->tv_sec += clock_off;
+  }
   return r;
 }
 time_t time(time_t *t) {
